@@ -64,6 +64,17 @@ var mutations = map[string]mutation{
 	"c11-default-dialer-captures-ctx": {"C11", []edit{
 		{"kmipclient/client.go", "\tdialer := opts.dialer\n\tif dialer == nil {\n\t\tdialer = func(ctx context.Context) (net.Conn, error) {\n\t\t\ttlsDialer := tls.Dialer{\n\t\t\t\tConfig: tlsCfg,\n\t\t\t}\n\t\t\treturn tlsDialer.DialContext(ctx, \"tcp\", addr)", "\tdialer := opts.dialer\n\tif dialer == nil {\n\t\tdialCtx0 := ctx\n\t\tdialer = func(ctx context.Context) (net.Conn, error) {\n\t\t\ttlsDialer := tls.Dialer{\n\t\t\t\tConfig: tlsCfg,\n\t\t\t}\n\t\t\treturn tlsDialer.DialContext(dialCtx0, \"tcp\", addr)"},
 	}},
+	// wave 15 dimensions
+	"c13-response-version-must-match": one("C13", "kmipclient/client.go", "\t\tresp, err := c.conn.roundtrip(ctx, msg)\n\t\tif err == nil {\n\t\t\treturn resp, nil\n\t\t}", "\t\tresp, err := c.conn.roundtrip(ctx, msg)\n\t\tif err == nil {\n\t\t\tif resp.Header.ProtocolVersion != msg.Header.ProtocolVersion {\n\t\t\t\treturn nil, errors.New(\"unexpected protocol version in response\")\n\t\t\t}\n\t\t\treturn resp, nil\n\t\t}"),
+	"c15-detached-global-holder": {"C15", []edit{
+		{"kmipserver/context.go", "\tif bd == nil {\n\t\tpanic(\"not in a batch context\")\n\t}\n\tbd.idPlaceholder = id\n", "\tif bd == nil {\n\t\tbd = &noBatch\n\t}\n\tbd.idPlaceholder = id\n"},
+		{"kmipserver/context.go", "\tif bd == nil {\n\t\treturn \"\"\n\t}\n\treturn bd.idPlaceholder\n", "\tif bd == nil {\n\t\tbd = &noBatch\n\t}\n\treturn bd.idPlaceholder\n"},
+		{"kmipserver/context.go", "type ctxBatch struct{}\n", "type ctxBatch struct{}\n\nvar noBatch batchData\n"},
+	}},
+	"c20-lazy-enum-name-index": {"C20", []edit{
+		{"ttlv/registry.go", "\tif enumsByName[tag] == nil {\n\t\tenumsByName[tag] = make(map[string]uint32, len(names))\n\t}\n\tfor enum, name := range names {\n\t\tenumNames[tag][uint32(enum)] = name\n\t\tenumsByName[tag][name] = uint32(enum)\n\t}\n", "\tfor enum, name := range names {\n\t\tenumNames[tag][uint32(enum)] = name\n\t}\n\tdelete(enumsByName, tag)\n"},
+		{"ttlv/registry.go", "\tif reg := enumsByName[tag]; reg != nil {\n\t\tn, ok := reg[name]", "\treg, built := enumsByName[tag]\n\tif !built && enumNames[tag] != nil {\n\t\treg = make(map[string]uint32, len(enumNames[tag]))\n\t\tenumsByName[tag] = reg\n\t\tfor enum, nm := range enumNames[tag] {\n\t\t\treg[nm] = enum\n\t\t}\n\t}\n\tif reg != nil {\n\t\tn, ok := reg[name]"},
+	}},
 	// C15
 	"c15-shared-batchdata": {"C15", []edit{
 		{"kmipserver/context.go", "\tbdata := &batchData{\n\t\theader: hdr,\n\t}\n", "\tbdata := &sharedBatchData\n\tbdata.header = hdr\n"},
